@@ -21,7 +21,7 @@ def run(m, chk):
         "np.zeros/ones/eye/empty without dtype=object, true division of two library integers) reaches a return value or a state write of the listed operations; no fixed-width integer dtype on those paths; on the polynomial "
         "paths of evaluation / insertion / elevation / splitting points are only used as `scalar * point` (point on the right) and `point + point`. Agreement of float and exact results to 1e-9 is not decided."
     )
-    chk.decides = ["E8: no library float reaches a sink of the exact entries", "FIXED-WIDTH", "MIN-POINT", 'MEMO-KEY', 'no truncated library float (int(float)) used as a value', 'ONE-NODE-FAMILY (fit_points)']
+    chk.decides = ["E8: no library float reaches a sink of the exact entries", "FIXED-WIDTH", "MIN-POINT", 'MEMO-KEY', 'no truncated library float (int(float)) used as a value', 'ONE-NODE-FAMILY (fit_points)', 'PROBE-OPERAND (+= / -= of a KnotVector ask the operand whether it is a number)']
     chk.not_decided = ["float and exact runs agree to relative 1e-9", "conditioning", "values equal the mathematically exact result"]
     chk.assume("user `int / int` at the API surface is Python semantics, not a float introduced by the library")
     chk.assume("a true division is reported only when both operands are library integers on every path ('may be an integer' is not reported)")
@@ -64,10 +64,11 @@ def run(m, chk):
         chk.ob("FIXED-WIDTH", f"{q}: `{text[:50]}`", False, loc=loc, detail=f"{q}: `{text}` at {loc} casts an exact result to a fixed-width integer dtype: integers beyond 2**63 overflow (or wrap) although the exact path promises arbitrary precision", func=q, construct=f"fixed-width cast {text[:40]}")
     if not nfw:
         chk.ob("FIXED-WIDTH", "no fixed-width integer dtype on the exact paths", True, loc="", detail="")
-    from .extra import memo_key, one_node_family
+    from .extra import memo_key, one_node_family, probe_operand
 
     memo_key(r, chk)
     one_node_family(r, chk, "curves.Curve.fit_points")
+    probe_operand(r, chk, ["knotspace.KnotVector.__iadd__", "knotspace.KnotVector.__isub__"])
     # positive control: the kind analysis does see library floats where they are by design
     pc = AX.ctxs
     ctl = 0
